@@ -112,7 +112,7 @@ PROPS = {
              "lengths-first (claimed elements <= input bytes), then bit patterns of bool/char/enum tags, then walked and dropped. distinct_nontrivial = distinct "
              "(type, entry point, mutation class, outcome kind).",
         runs=dict(quick=[dict(build="release", shards=16, timeout=1500), dict(build="debug", shards=8, timeout=1500), dict(build="miri", shards=16, timeout=900)],
-                  thorough=[dict(build="release", shards=16, timeout=3000), dict(build="debug", shards=16, timeout=3000), dict(build="asan", shards=16, timeout=3000), dict(build="miri", shards=16, timeout=3000)]),
+                  thorough=[dict(build="release", shards=16, timeout=6000), dict(build="debug", shards=16, timeout=6000), dict(build="asan", shards=16, timeout=6000), dict(build="miri", shards=16, timeout=3000)]),
         required_counters=dict(quick=dict(returned_error=5000, returned_value=3000)),
         fresh_zoo=True,
     ),
